@@ -740,6 +740,11 @@ static void do_loop_cond_number () {
  *  The effect is that all called efuns knows that they won't have destructed objects as
  *  arguments.
  */
+#ifdef NEOLITH_VERIF
+/* verification hook: called before every dispatched instruction (off unless a harness sets it) */
+void (*neolith_verif_dispatch_hook) (int instruction) = 0;
+#endif
+
 void eval_instruction (const char *p) {
 
   int i, n;
@@ -755,6 +760,10 @@ void eval_instruction (const char *p) {
   while (1)
     {
       instruction = EXTRACT_UCHAR (pc++);
+#ifdef NEOLITH_VERIF
+      if (neolith_verif_dispatch_hook)
+        neolith_verif_dispatch_hook (instruction);
+#endif
       if (!--eval_cost)
         {
           /* [NEOLITH-EXTENSION] allows eval_instruction without current_object */
